@@ -1210,6 +1210,7 @@ CATCH_ALL
 
 m4_define(`m4_linear_partition_for_polyhedron_domains',
 `dnl
+ // Note: the caller becomes the owner of the two (new) objects.
  if (Interfaces::is_necessarily_closed_for_interfaces(*to_const(x))) {
     const C_@CPP_CLASS@& xx
       = static_cast<const C_@CPP_CLASS@&>(*to_const(x));
@@ -1217,18 +1218,40 @@ m4_define(`m4_linear_partition_for_polyhedron_domains',
       = static_cast<const C_@CPP_CLASS@&>(*to_const(y));
     std::pair<C_@CPP_CLASS@|COMMA| Pointset_Powerset<NNC_Polyhedron> >
       r = linear_partition(xx, yy);
-    *p_inters = to_nonconst(&r.first);
-    *p_rest = to_nonconst(&r.second);
+    C_@CPP_CLASS@* const inters = new C_@CPP_CLASS@(0, EMPTY);
+    Pointset_Powerset<NNC_Polyhedron>* rest = nullptr;
+    try {
+      rest = new Pointset_Powerset<NNC_Polyhedron>(0, EMPTY);
+    }
+    catch (...) {
+      delete inters;
+      throw;
+    }
+    swap(*inters, r.first);
+    swap(*rest, r.second);
+    *p_inters = to_nonconst(inters);
+    *p_rest = to_nonconst(rest);
  }
  else {
-    const C_@CPP_CLASS@& xx
-      = static_cast<const C_@CPP_CLASS@&>(*to_const(x));
-    const C_@CPP_CLASS@& yy
-      = static_cast<const C_@CPP_CLASS@&>(*to_const(y));
-    std::pair<C_@CPP_CLASS@|COMMA| Pointset_Powerset<NNC_Polyhedron> >
+    const NNC_@CPP_CLASS@& xx
+      = static_cast<const NNC_@CPP_CLASS@&>(*to_const(x));
+    const NNC_@CPP_CLASS@& yy
+      = static_cast<const NNC_@CPP_CLASS@&>(*to_const(y));
+    std::pair<NNC_@CPP_CLASS@|COMMA| Pointset_Powerset<NNC_Polyhedron> >
       r = linear_partition(xx, yy);
-    *p_inters = to_nonconst(&r.first);
-    *p_rest = to_nonconst(&r.second);
+    NNC_@CPP_CLASS@* const inters = new NNC_@CPP_CLASS@(0, EMPTY);
+    Pointset_Powerset<NNC_Polyhedron>* rest = nullptr;
+    try {
+      rest = new Pointset_Powerset<NNC_Polyhedron>(0, EMPTY);
+    }
+    catch (...) {
+      delete inters;
+      throw;
+    }
+    swap(*inters, r.first);
+    swap(*rest, r.second);
+    *p_inters = to_nonconst(inters);
+    *p_rest = to_nonconst(rest);
 }
   return 0;
 
@@ -1242,8 +1265,20 @@ m4_define(`m4_linear_partition_for_non_polyhedron_domains',
       = static_cast<const @CPP_CLASS@&>(*to_const(y));
     std::pair<@CPP_CLASS@|COMMA| Pointset_Powerset<NNC_Polyhedron> >
       r = linear_partition(xx, yy);
-    *p_inters = to_nonconst(&r.first);
-    *p_rest = to_nonconst(&r.second);
+    // Note: the caller becomes the owner of the two (new) objects.
+    @CPP_CLASS@* const inters = new @CPP_CLASS@(0, EMPTY);
+    Pointset_Powerset<NNC_Polyhedron>* rest = nullptr;
+    try {
+      rest = new Pointset_Powerset<NNC_Polyhedron>(0, EMPTY);
+    }
+    catch (...) {
+      delete inters;
+      throw;
+    }
+    swap(*inters, r.first);
+    swap(*rest, r.second);
+    *p_inters = to_nonconst(inters);
+    *p_rest = to_nonconst(rest);
   return 0;
 
 ')
@@ -1264,8 +1299,20 @@ ppl_@CLASS@_approximate_@PARTITION@
     bool finite;
     std::pair<@CPP_CLASS@|COMMA| Pointset_Powerset<Grid> >
       r = approximate_partition(xx, yy, finite);
-    *p_inters = to_nonconst(&r.first);
-    *p_rest = to_nonconst(&r.second);
+    // Note: the caller becomes the owner of the two (new) objects.
+    @CPP_CLASS@* const inters = new @CPP_CLASS@(0, EMPTY);
+    Pointset_Powerset<Grid>* rest = nullptr;
+    try {
+      rest = new Pointset_Powerset<Grid>(0, EMPTY);
+    }
+    catch (...) {
+      delete inters;
+      throw;
+    }
+    swap(*inters, r.first);
+    swap(*rest, r.second);
+    *p_inters = to_nonconst(inters);
+    *p_rest = to_nonconst(rest);
     *p_finite = finite ? 1 : 0;
   return 0;
 }
